@@ -69,6 +69,13 @@ def manual_place(net, arch, fold_bn: bool) -> None:
     reps = comp_reps(arch, with_frozen=True)
     sh = shapes(arch)
     maskers = {}
+    # standalone BatchNorm layers: the user wraps them too (their exported size follows the channels pruned upstream)
+    from plinio.methods.pit.nn.batchnorm_1d import PITBatchNorm1d
+    from plinio.methods.pit.nn.batchnorm_2d import PITBatchNorm2d
+    for i, n in enumerate(arch["nodes"], start=1):
+        if n["op"] == "bns":
+            old = net.layers[lname(i)]
+            net.layers[lname(i)] = (PITBatchNorm2d if isinstance(old, nn.BatchNorm2d) else PITBatchNorm1d)(old)
     for i, n in enumerate(arch["nodes"], start=1):
         if n["op"] not in ("conv", "lin") or n["excl"] or n["reuse"]:
             continue
@@ -230,7 +237,56 @@ def index_encode(pit, arch) -> Any:
             w.copy_((co * 10000000 + ci * 1000 + tap + 1).to(w.dtype))
             if ly.bias is not None:
                 ly.bias.copy_((torch.arange(w.shape[0]) + 1).to(w.dtype))
+    for i in standalone_bn_nodes(m, arch):          # running_mean[c] = c + 1
+        bn = layer(m, i)
+        with torch.no_grad():
+            bn.running_mean.copy_((torch.arange(bn.num_features) + 1).to(bn.running_mean.dtype))
     return m
+
+
+def standalone_bn_nodes(pit, arch) -> List[int]:
+    """'bns' nodes whose BatchNorm is still a module of its own after the conversion (PIT fuses a BatchNorm that
+    directly follows a searchable layer into that layer)."""
+    out = []
+    for i, n in enumerate(arch["nodes"], start=1):
+        if n["op"] != "bns":
+            continue
+        try:
+            m = layer(pit, i)
+        except AttributeError:
+            continue
+        if isinstance(m, (nn.BatchNorm1d, nn.BatchNorm2d)) and any(
+                nd.op == "call_module" and nd.target == "layers." + lname(i) for nd in pit.seed.graph.nodes):
+            out.append(i)
+    return out
+
+
+def observe_bns(pit, arch) -> List[Dict[str, Any]]:
+    """Standalone BatchNorm layers: what summary() reports and the mask export() will slice them with."""
+    recs = []
+    for i in standalone_bn_nodes(pit, arch):
+        m = layer(pit, i)
+        rec: Dict[str, Any] = {"n": i, "pit": type(m).__name__.startswith("PIT"), "sum_nf": -1, "told": [], "ok": True}
+        try:
+            rec["sum_nf"] = int(m.summary().get("num_features", -1))
+            rec["told"] = bits(m.input_features_calculator.features_mask)
+        except Exception as e:
+            rec["ok"] = False
+            rec["err"] = type(e).__name__
+        recs.append(rec)
+    return recs
+
+
+def decode_bns(exp, pit, arch) -> List[Dict[str, Any]]:
+    recs = []
+    for i in standalone_bn_nodes(pit, arch):
+        try:
+            m = exp.get_submodule("layers." + lname(i))
+            recs.append({"n": i, "nf": int(m.num_features),
+                         "idx": [int(round(float(v))) - 1 for v in m.running_mean.detach().tolist()]})
+        except Exception:
+            recs.append({"n": i, "nf": -1, "idx": []})
+    return recs
 
 
 def decode_export(exp, arch) -> Dict[str, Any]:
